@@ -76,8 +76,15 @@ func Ghost_addIDAt(s Store, j int) string   { return vcSeqAt(ghost_addIDs(s), j)
 //@ iface Store.MarkSeen(self Store, mailbox string, id string) (err error)
 //@ iface Store.PurgeMessages(self Store, mailbox string) (err error)
 
-// GetMessages returns a fresh slice of existing messages.
+// GetMessages returns a fresh slice of existing messages; the mailbox asked for is logged.
+func ghost_nlisted(s Store) int               { panic("ghost") }
+func ghost_listedBoxes(s Store) vcSeq[string] { panic("ghost") }
+func Ghost_nlisted(s Store) int               { return ghost_nlisted(s) }
+func Ghost_listedAt(s Store, j int) string    { return vcSeqAt(ghost_listedBoxes(s), j) }
+
 //@ iface Store.GetMessages(self Store, mailbox string) (r []Message, err error)
+//@   modifies ghost_nlisted(self), ghost_listedBoxes(self)
+//@   ensures ghost_nlisted(self) == old(ghost_nlisted(self)) + 1 && vcSeqAt(ghost_listedBoxes(self), old(ghost_nlisted(self))) == mailbox
 //@   ensures vcFresh(r) || r == nil
 //@   ensures forall k int :: { r[k] } 0 <= k && k < len(r) ==> r[k] != nil
 
